@@ -15,7 +15,9 @@ dynamically; a schedule is any `List Label`, each label lets one goroutine start
 or perform its next shared-memory access; disabled labels (goroutine blocked on `errorsMU` or on
 the `sync.Once`, nothing to do) are skipped.  `(sys v cfg).run sched` is the state after the
 schedule.  Theorems of sections 1–6 are about `Variant.fixed` (the code in /repo) and hold for every
-configuration and every schedule; section 7 exhibits the defects of the older code / of mutants.
+configuration and every schedule; section 7 exhibits the defects of the older code / of mutants;
+section 8 states the publication order (error recorded before the done signal) on the full system and on the
+two-step system of `Goat/Model/ScopePublish.lean`, where the swapped order is refuted.
 
 Vocabulary:
   `x.closes`     how many times `close(done)` was executed on context `x` (≥ 2 = run-time panic)
@@ -28,6 +30,7 @@ Vocabulary:
   `sc.wg`        the `sync.WaitGroup` counter of scope `sc` (an `Int`; `< 0` = run-time panic)
 -/
 import Goat.Proofs.ScopeSignalMain
+import Goat.Proofs.ScopePublish
 
 namespace Goat.C12
 
@@ -212,5 +215,70 @@ theorem prop_to_parent_breaks_containment :
         [(.plain, [9, canceled], 1, true), (.isolated 0, [], 0, false)] :=
   ⟨[.call 0 (.op (.append [9]) 0), .run 0, .run 0, .run 0, .run 0,
     .run 1, .run 1, .run 1, .run 1, .run 1], by decide⟩
+
+/-! ### 8. Publication order: the error is recorded before the done signal fires
+
+"Every appended error is … reported by the scope's error accessors", read at the moment the done signal is
+observed: whoever learns from `Done()` / `IsDone()` that a scope nobody stopped has ended finds the error, and the
+watcher goroutine of an isolated child — which is such an observer — therefore kills the child, never stops it. -/
+
+/-- In the full system, at any moment (quiet or not): a done context on which nobody called `Stop` holds an error. -/
+theorem done_by_error_shows_error (cfg : Config) (sched : List Label) (c : Nat) (x : Ctx)
+    (hx : ((sys Variant.fixed cfg).run sched).ctxs[c]? = some x) (hd : x.done = true)
+    (h1 : x.stopCalls = 0) (h2 : x.propStops = 0) : x.errors ≠ [] := by
+  rcases done_only_if_stopped_or_error cfg sched c x hx hd with h | h | h
+  · omega
+  · omega
+  · exact h
+
+example : (((sys Variant.fixed ⟨1, [.plain]⟩).run
+    [.call 0 (.op .kill 0), .run 0, .run 0, .run 0, .run 0]).ctxs[0]?.map
+      (fun x => (x.done, x.stopCalls, x.propStops, x.errors))) = some (true, 0, 0, [canceled]) := by decide
+
+/-- The same clause in the two-step system `Goat/Model/ScopePublish.lean` (`AppendError` = record; close), where
+the swapped order can be stated too.  Any number of goroutines — appenders, observers blocked on `Done()`,
+watchers of isolated children of any depth — any schedule: an observer that was woken by `Done()` and then read
+`Err()` has read a non-nil error. -/
+theorem error_published_before_done (pcs : Nat → ScopePublish.PC) (h : ∀ t, (pcs t).initial)
+    (sched : List Nat) (t c : Nat) (b : Bool)
+    (hsaw : ((ScopePublish.sys .recordThenClose pcs).run sched).pcs t = .obsSaw c b) : b = true :=
+  (ScopePublish.inv_run pcs h sched).saw t c b hsaw
+
+/-- Every closed context holds an error — the isolated children too: one that has ended, has ended killed. -/
+theorem done_context_holds_error (pcs : Nat → ScopePublish.PC) (h : ∀ t, (pcs t).initial)
+    (sched : List Nat) (c : Nat)
+    (hc : ((ScopePublish.sys .recordThenClose pcs).run sched).closed c = true) :
+    0 < ((ScopePublish.sys .recordThenClose pcs).run sched).errs c :=
+  (ScopePublish.inv_run pcs h sched).pub c hc
+
+/-- No watcher of an isolated child ever chooses `Stop()`: when it wakes up the parent's error is there. -/
+theorem isolated_child_never_stopped (pcs : Nat → ScopePublish.PC) (h : ∀ t, (pcs t).initial)
+    (sched : List Nat) (t c : Nat) :
+    ((ScopePublish.sys .recordThenClose pcs).run sched).pcs t ≠ .stopStart c :=
+  (ScopePublish.inv_run pcs h sched).nostop t c
+
+-- goroutine 0 appends to context 0, 1 waits on it, 2 is the watcher of the isolated child 1, 3 waits on the child:
+-- the hypotheses are satisfiable, both observers read an error, the child holds its Canceled
+example : ∀ t, ((ScopePublish.ofList [.appStart 0, .obsWait 0, .watchWait 0 1, .obsWait 1]) t).initial := by
+  intro t
+  match t with
+  | 0 | 1 | 2 | 3 => trivial
+  | _ + 4 => trivial
+
+example :
+    let s := (ScopePublish.sys .recordThenClose
+      (ScopePublish.ofList [.appStart 0, .obsWait 0, .watchWait 0 1, .obsWait 1])).run [0, 0, 1, 1, 2, 2, 2, 2, 3, 3]
+    s.pcs 1 = .obsSaw 0 true ∧ s.pcs 3 = .obsSaw 1 true ∧ s.closed 1 = true ∧ s.errs 1 = 1 := by decide
+
+/-- The swapped order (close, then record) is refuted by a schedule of nine steps: the observer of the failed
+context reads `Err() == nil`, the watcher stops the isolated child instead of killing it, and the child stays done
+without an error although its parent holds one. -/
+theorem close_first_hides_error :
+    ∃ sched : List Nat,
+      let s := (ScopePublish.sys .closeThenRecord
+        (ScopePublish.ofList [.appStart 0, .obsWait 0, .watchWait 0 1, .obsWait 1])).run sched
+      s.pcs 1 = .obsSaw 0 false ∧ s.pcs 3 = .obsSaw 1 false ∧
+      s.closed 1 = true ∧ s.errs 1 = 0 ∧ s.errs 0 = 1 ∧ s.pcs 0 = .idle ∧ s.pcs 2 = .idle :=
+  ⟨[0, 1, 1, 2, 2, 2, 0, 3, 3], by decide⟩
 
 end Goat.C12
